@@ -2,7 +2,7 @@
 import math
 
 from sx import symnp, core as sc, symda
-from sx.harness import TOL64
+from sx.harness import TOL64, isfinite
 from .common import raster, coords_affine, cells, And, Or, Not, Implies, ite, isnan, same, vals, Skip, Sum
 
 ID = 'C04'
@@ -34,6 +34,9 @@ def jobs(tier, seed):
     for shp, agg, sels in plan:
         for sel in sels:
             out.append({'name': 'xtab2d-%dx%d-%s-%s' % (shp[0], shp[1], agg, sel), 'kind': '2d', 'shape': list(shp), 'agg': agg, 'sel': sel})
+    # +-inf cells in the values raster are not valid cells (neither counted nor part of the percentage base)
+    out.append({'name': 'xtab2d-1x2-count-none-inf', 'kind': '2d', 'shape': [1, 2], 'agg': 'count', 'sel': 'none', 'inf': True})
+    out.append({'name': 'xtab2d-1x3-percentage-none-inf', 'kind': '2d', 'shape': [1, 3], 'agg': 'percentage', 'sel': 'none', 'inf': True})
     for agg in ('count', 'sum', 'mean', 'max', 'min'):
         for sel in ('none', 'cat1'):
             out.append({'name': 'xtab3d-1x3-%s-%s' % (agg, sel), 'kind': '3d', 'shape': [1, 3], 'agg': agg, 'sel': sel})
@@ -67,7 +70,7 @@ def body(ctx, job):
         if len(zone_ids) == 2:
             ctx.assume(zone_ids[0] != zone_ids[1])
     if job['kind'] == '2d':
-        vals_d = ctx.array('v', (h, w), 'float64', nan=True)
+        vals_d = ctx.array('v', (h, w), 'float64', nan=True, inf=bool(job.get('inf')))
         values = raster(vals_d, name='values')
         vl = vals_d.flat_values()
         if sel in ('cat1', 'cat2', 'both'):
@@ -75,7 +78,7 @@ def body(ctx, job):
             if len(cat_ids) == 2:
                 ctx.assume(cat_ids[0] != cat_ids[1])
         df = ctx.call('zonal:crosstab', zones, values, zone_ids, cat_ids, None, agg, nodata)
-        valid = [And(Not(isnan(v)), v != nodata) for v in vl]
+        valid = [And(isfinite(v), v != nodata) for v in vl]
         cols = [c for c in df.columns if not isinstance(c, str)]
         rows = df['zone'].vals
         ctx.observe('zone_column', list(rows))
